@@ -142,6 +142,11 @@ def gen_metrics(rnd, n_einsums=None, force=None):
                        "    - name: Mem%s" % sfx, "      class: DRAM", "      attributes:",
                        "        bandwidth: %d" % bw]
         comps["Mem"] = {"class": "DRAM", "inst": 1, "bandwidth": bw, "depth": 0}
+        if rnd.random() < 0.3:
+            # a compute unit on the (single-instance) top level, beside those in the PEs
+            arch_lines += ["    - name: AddSys%s" % sfx, "      class: compute", "      attributes:",
+                           "        type: add"]
+            comps["AddSys"] = {"class": "compute", "inst": 1, "functional": True}
         ind = "    "
         depth = 1
         if mid:
@@ -286,6 +291,11 @@ def gen_metrics(rnd, n_einsums=None, force=None):
         if rnd.random() < (0.3 if i > 0 else 0.8):
             b_lines += ["  - component: Add0%s" % sfx, "    bindings:", "    - op: add"]
             ei["bound"]["Add0"] = True
+        elif "AddSys" in comps and rnd.random() < 0.8:
+            # adds on the top level, multiplies in the PEs: two instance counts in one Einsum
+            b_lines += ["  - component: AddSys%s" % sfx, "    bindings:", "    - op: add"]
+            ei["bound"]["AddSys"] = True
+            ei["compute_on_two_levels"] = True
         isects = sorted(c for c in comps if c.startswith("Isect"))
         cands = [r for r in lo_i if sum(1 for t in ei["inputs"] if r in decl[t]) >= 2]
         rnd.shuffle(cands)
@@ -340,6 +350,8 @@ def gen_metrics(rnd, n_einsums=None, force=None):
         tags.append("lf-leader-not-first")
     if broadcast:
         tags.append("m-output-only-rank")
+    if any(ei.get("compute_on_two_levels") for ei in einfo):
+        tags.append("m-compute-on-two-levels")
     if reused:
         tags.append("m-input-read-by-two-einsums")
     if any(ei.get("time_shuffled") for ei in einfo):
